@@ -400,7 +400,8 @@ pub fn gen_scenario(rng: &mut Rng) -> (Scenario, usize) {
         }
         4 => {
             // keyed endpoints are told the peer has no key
-            let mut sc = base(rng, if rng.chance(3, 4) { 1 } else { k }, p, r);
+            let k4 = if rng.chance(3, 4) { 1 } else { k };
+            let mut sc = base(rng, k4, p, r);
             for e in 0..2 {
                 sc.decisions[e][0] = Decision::Mutate {
                     from: None,
@@ -489,7 +490,8 @@ pub fn gen_scenario(rng: &mut Rng) -> (Scenario, usize) {
             match rng.below(20) {
                 0..=6 => {}
                 7..=12 => {
-                    add_lone_donor(rng, &mut sc, rng.below(2) as usize);
+                    let feed = rng.below(2) as usize;
+                    add_lone_donor(rng, &mut sc, feed);
                 }
                 _ => {
                     let (e0, e1) = (sc.endpoints[0].clone(), sc.endpoints[1].clone());
